@@ -151,3 +151,7 @@ pub use storage::{NdarrayConfig, NdarrayTrace, NdarrayValue};
 
 #[cfg(feature = "arrow")]
 pub use storage::{ArrowConfig, ArrowTrace, ArrowTraceStorage};
+
+/// Verification hooks; compiled only with `--cfg nuts_rs_verif`.
+#[cfg(nuts_rs_verif)]
+pub mod verif;
